@@ -490,4 +490,6 @@ impl NetworkRef {
 #[cfg(feature = "verif-hooks")]
 pub(crate) use connection_manager::verif_hooks as connection_manager_hooks;
 #[cfg(feature = "verif-hooks")]
+pub(crate) use peer::verif_hooks as peer_hooks;
+#[cfg(feature = "verif-hooks")]
 pub(crate) use wire::verif_hooks as wire_hooks;
